@@ -74,6 +74,9 @@ func (e *executionContext) appendLog(ctx context.Context, build func() *ledger.L
 func (e *executionContext) run(ctx context.Context, isOutcome func(log *ledger.ChainedLog) bool,
 	executor func(e *executionContext) (*ledger.ChainedLog, chan struct{}, error)) (*ledger.ChainedLog, error) {
 	defer e.complete()
+	if err := checkUTF8("idempotency key", e.parameters.IdempotencyKey); err != nil {
+		return nil, err
+	}
 	if ik := e.parameters.IdempotencyKey; ik != "" {
 		if err := e.commander.referencer.take(referenceIks, ik); err != nil {
 			verifhook.Yield(ctx, "ik.busy", "ik", ik)
